@@ -507,18 +507,26 @@ class TaintInterp:
                 return TC(not t, noval(labels(v))) if t is not None else T(noval(labels(v)))
             if isinstance(v, TC) and isinstance(v.v, (int, float)) and isinstance(e.op, ast.USub):
                 return TC(-v.v, v.l)
+            if isinstance(v, TC) and isinstance(v.v, (int, float)) and isinstance(e.op, ast.UAdd):
+                return v
             return T(labels(v))
         if isinstance(e, ast.BoolOp):
             vals = [self.ev(v, fr) for v in e.values]
             if isinstance(e.op, ast.Or):
+                # `setting or fallback`: a falsy setting (0, 0.0, False, "") is replaced - recorded as 'alt:<label of the setting>'
+                alts = frozenset("alt:" + l for v in vals[:-1] for l in labels(v) if l.startswith(("hc:", "sc:")))
                 for v in vals:
                     t = truth(v)
                     if t is True:
-                        return v
+                        return add_labels(v, alts)
                     if t is None:
                         break
                 else:
-                    return vals[-1]
+                    return add_labels(vals[-1], alts)
+                r = alts
+                for v in vals:
+                    r |= labels(v)
+                return T(noval(r))
             else:
                 for v in vals:
                     t = truth(v)
@@ -563,7 +571,11 @@ class TaintInterp:
                 return self.ev(e.body, fr)
             if t is False:
                 return self.ev(e.orelse, fr)
-            return add_labels(join(self.ev(e.body, fr), self.ev(e.orelse, fr)), labels(c))
+            r_ = add_labels(join(self.ev(e.body, fr), self.ev(e.orelse, fr)), labels(c))
+            if ast.dump(e.test) == ast.dump(e.body):
+                # `x if x else fallback`: the same replacement of a falsy setting
+                r_ = add_labels(r_, frozenset("alt:" + l for l in labels(c) if l.startswith(("hc:", "sc:"))))
+            return r_
         if isinstance(e, (ast.ListComp, ast.GeneratorExp, ast.SetComp)) and len(e.generators) == 1:
             it0 = self.ev(e.generators[0].iter, fr)
             seq0 = None
@@ -600,6 +612,13 @@ class TaintInterp:
             v = self.ev(e.elt, fr)
             fr.env = saved
             return TLst([], add_labels(v if isinstance(v, (T, TC)) else T(labels(v)), l))
+        if isinstance(e, ast.DictComp) and len(e.generators) == 1:
+            return self.dictcomp(e, fr)
+        if isinstance(e, ast.DictComp):
+            self.unknown.append((e, "a dictionary built by nested comprehensions"))
+            r_ = TDct({})
+            r_.open = True
+            return r_
         if isinstance(e, ast.JoinedStr):
             return T()
         if isinstance(e, ast.Starred):
@@ -607,6 +626,67 @@ class TaintInterp:
         if isinstance(e, ast.Lambda):
             return TLam(e, fr)
         return T()
+
+    def dictcomp(self, e, fr):
+        g = e.generators[0]
+        saved = copy_env(fr.env)
+        try:
+            # {k: v for k, v in SETTINGS.items() if k in NAMES}: the user's dictionary, whose keys are not known, filtered by a list of
+            # names - one entry per name, IN THE ORDER OF THE USER'S DICTIONARY (not that of the list)
+            if isinstance(g.iter, ast.Call) and isinstance(g.iter.func, ast.Attribute) and g.iter.func.attr == "items" and not g.iter.args \
+                    and isinstance(g.target, ast.Tuple) and len(g.target.elts) == 2 and all(isinstance(x, ast.Name) for x in g.target.elts):
+                base = self.ev(g.iter.func.value, fr)
+                kname = g.target.elts[0].id
+                if isinstance(base, TDct) and base.src and isinstance(e.key, ast.Name) and e.key.id == kname:
+                    names = None
+                    for c in g.ifs:
+                        if isinstance(c, ast.Compare) and len(c.ops) == 1 and isinstance(c.ops[0], ast.In) and isinstance(c.left, ast.Name) and c.left.id == kname:
+                            seq = self.ev(c.comparators[0], fr)
+                            if isinstance(seq, (TTup, TLst)) and getattr(seq, "extra", None) is None and all(isinstance(x, TC) and isinstance(x.v, str) for x in seq.items):
+                                names = [x.v for x in seq.items]
+                    if names is not None and len(g.ifs) == 1:
+                        d = {}
+                        for kk in names:
+                            self.assign(g.target, TTup([TC(kk), base.d.get(kk, T({f"{base.src}:{kk}"}))]), fr)
+                            d[kk] = self.ev(e.value, fr)
+                        r_ = TDct(d)
+                        r_.unordered = True
+                        return r_
+            it = self.ev(g.iter, fr)
+            if isinstance(it, TDct) and not it.open:
+                it = TLst([TC(k) for k in it.d])
+            if isinstance(it, TTup) or (isinstance(it, TLst) and it.extra is None):
+                d, open_ = {}, False
+                for v in it.items:
+                    self.assign(g.target, v, fr)
+                    cl, drop = EMPTY, False
+                    for c in g.ifs:
+                        cv = self.ev(c, fr)
+                        if truth(cv) is False:
+                            drop = True
+                            break
+                        cl |= noval(labels(cv))
+                    if drop:
+                        continue
+                    k = self.ev(e.key, fr)
+                    val = self.ev(e.value, fr)
+                    if isinstance(k, TC):
+                        d[k.v] = add_labels(val, cl) if cl else val
+                    else:
+                        d["?"] = join(d.get("?"), T(labels(val) | cl))
+                        open_ = True
+                r_ = TDct(d)
+                r_.open = open_
+                if open_:
+                    self.unknown.append((e, "a dictionary comprehension with keys that are not known"))
+                return r_
+            self.unknown.append((e, f"a dictionary built from `{ast.unparse(g.iter)[:40]}`, whose items are not known"))
+            self.assign(g.target, T(labels(it)), fr)
+            r_ = TDct({"?": T(labels(self.ev(e.value, fr)))})
+            r_.open = True
+            return r_
+        finally:
+            fr.env = saved
 
     def wrap(self, r):
         if r is None:
@@ -622,6 +702,12 @@ class TaintInterp:
         if isinstance(r, tuple) and r[0] == "global":
             if isinstance(r[1], ast.Constant):
                 return TC(r[1].value)
+            if isinstance(r[1], (ast.Dict, ast.Tuple, ast.List, ast.Lambda, ast.UnaryOp)) and len(r) > 2 and getattr(self, "_gdepth", 0) < 4:
+                self._gdepth = getattr(self, "_gdepth", 0) + 1
+                try:
+                    return self.ev(r[1], Frame(r[2], {}, r[2] + ".<module>"))
+                finally:
+                    self._gdepth -= 1
             return TExt("global")
         return None
 
@@ -670,8 +756,16 @@ class TaintInterp:
         args = []
         for a in e.args:
             v = self.ev(a, fr)
-            if isinstance(a, ast.Starred) and isinstance(v, (TTup, TLst)):
-                args.extend(v.items)
+            if isinstance(a, ast.Starred) and isinstance(v, (TTup, TLst)) and getattr(v, "extra", None) is None:
+                if getattr(v, "shuffled", False):
+                    # the order of the items is the order of the user's dictionary: any of them may arrive at any of the positions
+                    mix = T(labels(v) | frozenset({"mix:order"}))
+                    args.extend([mix for _ in v.items])
+                else:
+                    args.extend(v.items)
+            elif isinstance(a, ast.Starred):
+                self.unknown.append((e, f"`*{ast.unparse(a.value)[:40]}`: the positional arguments handed over are not known"))
+                args.append(v)
             else:
                 args.append(v)
         kw = {}
@@ -680,6 +774,8 @@ class TaintInterp:
             if k.arg is None:
                 if isinstance(v, TDct):
                     kw.update(v.d)
+                    if v.src:
+                        kw["**"] = v          # the settings dictionary spread into keywords: a parameter named k receives its entry k
                     if getattr(v, "open", False):
                         self.unknown.append((e, f"`**{ast.unparse(k.value)[:40]}`: a dictionary some of whose entries are not known"))
                 else:
@@ -691,6 +787,8 @@ class TaintInterp:
     def _call(self, f, args, kw, node, fr):
         if isinstance(f, TFn):
             return self.inline(f, args, kw, node)
+        if "**" in kw and not (isinstance(f, TCls) and self.prog.find_method(f.ci, "__init__") is not None):
+            kw = {k_: v_ for k_, v_ in kw.items() if k_ != "**"}
         if isinstance(f, TClo) and self.depth < self.max_depth:
             # the captured variables are shared with the defining function (in-place effects on them are seen there)
             a_ = f.node.args
@@ -738,7 +836,7 @@ class TaintInterp:
         if isinstance(f, TCls):
             o = TObj({}, f.ci)
             init = self.prog.find_method(f.ci, "__init__")
-            self.ctor_log.append((f.ci.qual, dict(kw), node))
+            self.ctor_log.append((f.ci.qual, {k_: v_ for k_, v_ in kw.items() if k_ != "**"}, node))
             if init is None:
                 for k, v in kw.items():
                     o.attrs[k] = v
@@ -806,10 +904,12 @@ class TaintInterp:
                             o.d[k_] = T(labels(o.d[k_]) | allv)
                         o.open = True
                         return T(allv)
-                    if name in ("values", "items", "keys") and (getattr(o, "open", False) or getattr(o, "unordered", False)):
+                    if name in ("values", "items", "keys") and (getattr(o, "open", False) or (getattr(o, "unordered", False) and name != "values")):
                         self.unknown.append((node, f"`.{name}()` of a dictionary whose entries / order are not known"))
                     if name == "values":
-                        return TLst(list(o.d.values()))
+                        r_ = TLst(list(o.d.values()))
+                        r_.shuffled = getattr(o, "unordered", False) and not getattr(o, "open", False)
+                        return r_
                     if name == "items":
                         return TLst([TTup([TC(k), v]) for k, v in o.d.items()])
                     if name == "keys":
@@ -909,16 +1009,20 @@ class TaintInterp:
         if a.vararg:
             env[a.vararg.arg] = TTup(allargs[len(params):])
         extra = {}
+        spread = kw.pop("**", None) if isinstance(kw.get("**"), TDct) else None
         for k, v in kw.items():
             if k in params or k in kwonly:
                 env[k] = v
             else:
                 extra[k] = v
         if a.kwarg:
-            env[a.kwarg.arg] = TDct(extra)
+            env[a.kwarg.arg] = TDct(extra, spread.src if spread is not None else None)
         for p in params + kwonly:
             if p not in env:
-                env[p] = dvals.get(p, T())
+                if spread is not None and p not in dvals:
+                    env[p] = T({f"{spread.src}:{p}"})          # **settings: the entry of that name
+                else:
+                    env[p] = dvals.get(p, T())
         self.call_log.append((fi.qual, dict(env), node))
         fr = Frame(fi.mod, env, fi.qual, fi.cls)
         self.depth += 1
